@@ -244,7 +244,7 @@ class C02:
                 bound.append((k, a))
             given = {p for p, _ in bound}
             for p in params:
-                if p not in given and p != "audio_dir":
+                if p not in given and p != "audio_dir" and not (p in leaf.init_defaults and leaf.init_param_cls.get(p) is None):
                     ctx.bad("R02.3", file, func, f"self.{attr} = {w.cls.name}(... {p} missing)",
                             f"constructor parameter {p!r} of {w.cls.name} is not supplied", w.node.lineno)
             for p, a in bound:
@@ -311,7 +311,23 @@ class C02:
         tfile = s.module.relpath
         site = f"{tfile}:{s.node.lineno} TagAdapter.get_new_id"
         want = ("call", ("builtin", "len"), (store_attr("_mapping"),), ())
-        if len(s.returns) == 1 and s.returns[0].term == want:
+        got_id = s.returns[0].term if len(s.returns) == 1 else None
+        # attributes the constructor sets from options the reference constructor did not have, at the options' defaults
+        tci = ctx.index.class_by_qual(f"{tm}:TagAdapter")
+        init = tci.find_method("__init__") if tci is not None else None
+        if got_id is not None and init is not None and ctx.index.canonical_qual("class", init[0].qual) != DATA_ADAPTER:
+            isum = ctx.summ.of_node(init[0].module, init[1], f"{init[0].qual}.__init__", init[0])
+            fixed = {}
+            for e in isum.of("store"):
+                tgt, val = e.term[1], e.term[2]
+                if tgt[0] == "attr" and tgt[1] == SELF and val[0] == "param" and val[1] in isum.defaults and isum.defaults[val[1]][0] == "const":
+                    fixed[tgt] = isum.defaults[val[1]]
+            if fixed:
+                from sa.sym import subst
+                from sa.canon import canon
+                if canon(subst(got_id, fixed)) == canon(want):
+                    got_id = want
+        if got_id == want:
             ctx.ok("R02.4", site, "tag id = len(self._mapping) (dense, allocated before insertion)")
         else:
             ctx.bad("R02.4", tfile, "TagAdapter.get_new_id", "return len(self._mapping)",
@@ -419,11 +435,15 @@ class C02:
                         continue
                     # `self.<store>` inside a class that is not a DataAdapter is an unrelated attribute of that name
                     base_is_self = any(x[0] == "attr" and x[2] == hit and x[1] == ("param", "self") for x in walk(e.term))
-                    if base_is_self and ci is not None and not ci.is_subclass_of(DATA_ADAPTER):
+                    if base_is_self and ci is not None and not any(
+                            ctx.index.canonical_qual("class", k.qual) == DATA_ADAPTER for k in ci.mro()):
                         continue
                     n += 1
                     site = f"{mod.relpath}:{e.lineno} {qual.split(':')[1]}"
-                    if qual in allowed:
+                    cqual = qual
+                    if ci is not None:
+                        cqual = ctx.index.canonical_qual("class", ci.qual) + "." + qual.split(".")[-1]
+                    if cqual in allowed:
                         ctx.ok("R02.6", site, f"write to {hit} inside DataAdapter")
                     else:
                         ctx.bad("R02.6", mod.relpath, qual.split(":")[1], f"write to {hit}: {show(e.term)[:80]}",
